@@ -15,6 +15,8 @@ template <class D> std::string runCase(Toks& t) {
 	unsigned nv = (unsigned) t.num();
 	const long l0 = leafTableSize<D>(), i0 = intTableSize<D>();
 	std::map<unsigned, std::unique_ptr<M>> hs;
+	// the apply functors live as long as the case (as functor members do in the library): their internal caches are re-used across applications
+	std::map<unsigned, std::unique_ptr<F1<D>>> f1s; std::map<unsigned, std::unique_ptr<F2<D>>> f2s; std::map<unsigned, std::unique_ptr<F3<D>>> f3s;
 	std::ostringstream os;
 	auto live = [&](unsigned h) -> M& { auto it = hs.find(h); if (it == hs.end()) throw std::runtime_error("driver: dead handle"); return *it->second; };
 	auto fresh = [&](unsigned h) { if (hs.count(h)) throw std::runtime_error("driver: handle already live"); };
@@ -26,9 +28,9 @@ template <class D> std::string runCase(Toks& t) {
 		else if (w == "K") { unsigned v = t.num(); fresh(h); hs[h].reset(new M(D::dec(v))); }
 		else if (w == "Y") { unsigned g = t.num(); fresh(h); M& src = live(g); hs[h].reset(new M(src)); }
 		else if (w == "A") { unsigned g = t.num(); M& dst = live(h); M& src = live(g); dst = src; }
-		else if (w == "U") { unsigned f = t.num(), a = t.num(); fresh(h); F1<D> fn(f); M& x = live(a); hs[h].reset(new M(fn(x))); }
-		else if (w == "B") { unsigned f = t.num(), a = t.num(), b = t.num(); fresh(h); F2<D> fn(f); M& x = live(a); M& y = live(b); hs[h].reset(new M(fn(x, y))); }
-		else if (w == "T") { unsigned f = t.num(), a = t.num(), b = t.num(), c = t.num(); fresh(h); F3<D> fn(f); M& x = live(a); M& y = live(b); M& z = live(c); hs[h].reset(new M(fn(x, y, z))); }
+		else if (w == "U") { unsigned f = t.num(), a = t.num(); fresh(h); if (!f1s.count(f)) f1s[f].reset(new F1<D>(f)); F1<D>& fn = *f1s[f]; M& x = live(a); hs[h].reset(new M(fn(x))); }
+		else if (w == "B") { unsigned f = t.num(), a = t.num(), b = t.num(); fresh(h); if (!f2s.count(f)) f2s[f].reset(new F2<D>(f)); F2<D>& fn = *f2s[f]; M& x = live(a); M& y = live(b); hs[h].reset(new M(fn(x, y))); }
+		else if (w == "T") { unsigned f = t.num(), a = t.num(), b = t.num(), c = t.num(); fresh(h); if (!f3s.count(f)) f3s[f].reset(new F3<D>(f)); F3<D>& fn = *f3s[f]; M& x = live(a); M& y = live(b); M& z = live(c); hs[h].reset(new M(fn(x, y, z))); }
 		else if (w == "E") { std::string as = t.word(); size_t off = t.num(); unsigned a = t.num(); fresh(h); M& x = live(a); hs[h].reset(new M(x.ExtendWith(mkAsgn(as), off))); }
 		else if (w == "X") { std::string as = t.word(); size_t off = t.num(); unsigned a = t.num(); fresh(h); M& x = live(a); hs[h].reset(new M(x.GetMtbddForPrefix(mkAsgn(as), off))); }
 		else if (w == "D") { live(h); hs.erase(h); }
